@@ -45,6 +45,15 @@ Setup ==
             [op |-> "SetDefault", h |-> "b1", u |-> A],
             [op |-> "SetDefault", h |-> "d2", u |-> AB],
             [op |-> "NewBundle", id |-> [p |-> "ex", ns |-> A, l |-> <<"b1">>], out |-> "sb"] >>
+    [] Scenario = "c18b" ->      \* one identifier names records of several types, in d1 and in b1,
+                                 \* inserted against the order of their type URIs; d1 also holds ex:y
+         SetupWorld \o
+         << NR("d1", "entity", <<NamePL("ex", X)>>, <<>>, <<>>),
+            NR("d1", "agent", <<NamePL("ex", X)>>, <<>>, <<>>),
+            NR("d1", "entity", <<NamePL("ex", Y)>>, <<>>, <<>>),
+            NR("b1", "generation", <<NamePL("ex", X)>>, << <<"entity", Ref(NamePL("ex", Y))>> >>, <<>>),
+            NR("b1", "entity", <<NamePL("ex", X)>>, <<>>, <<>>),
+            NR("b1", "agent", <<NameQN("zz", A, X)>>, <<>>, <<>>) >>
     [] Scenario = "c09b" ->      \* d1 and d2 each hold a bundle A/b1; the two bundles share an equal record
          SetupWorld \o
          << [op |-> "Bundle", h |-> "d2", id |-> NameQN("ex", A, <<"b1">>), out |-> "b2"],
@@ -95,7 +104,7 @@ Fresh == "n" \o ToString(Len(hist) + 1)
 IdSpellings == { <<NamePL("ex", X)>>, <<NameQN("zz", A, X)>>, <<NameUri(A \o X)>>,
                  <<NameQN("ex", A, BX)>>, <<NameQN("q", AB, X)>> }
 RecMenu ==
-  CASE Scenario = "c18" ->
+  CASE Scenario \in {"c18", "c18b"} ->
          { [k |-> "entity", id |-> i, formals |-> <<>>, extras |-> <<>>] : i \in IdSpellings }
          \cup { [k |-> "agent", id |-> <<NamePL("ex", X)>>, formals |-> <<>>, extras |-> <<>>],
                 [k |-> "generation", id |-> <<NamePL("ex", X)>>,
@@ -203,7 +212,7 @@ Compared == Len(hist) > NSetup /\ hist[Len(hist)].op = "CompareAll"
 Menu ==
   CASE Scenario = "c04" -> IF Compared THEN {} ELSE ActsNewRec \cup ActsBundle04 \cup ActsCompare
     [] Scenario = "c04b" -> ActsEdit04 \cup (IF Compared THEN {} ELSE ActsCompare)
-    [] Scenario = "c18" -> ActsNewRec \cup ActsAddRecord \cup ActsUpdate \cup ActsAddBundle
+    [] Scenario \in {"c18", "c18b"} -> ActsNewRec \cup ActsAddRecord \cup ActsUpdate \cup ActsAddBundle
                            \cup ActsDerive \cup ActsGet
     [] Scenario = "c09b" -> ActsNewRec \cup ActsUpdate \cup {a \in ActsDerive : a.op = "Flattened"}
     [] Scenario = "c09" -> ActsNewRec \cup ActsUpdate \cup ActsAddBundle \cup ActsBundle
